@@ -13,6 +13,7 @@ func init() {
 		ruleDef{"C08.R3", c08r3},
 		ruleDef{"C08.R4", c08r4},
 		ruleDef{"C08.R5", c08r5},
+		ruleDef{"C08.R6", c08r6},
 	)
 }
 
@@ -255,4 +256,126 @@ func c08r5(r *R) {
 		})
 	}
 	r.assume("S3: httputil.ReverseProxy copies method, URL path/query, end-to-end headers and bodies unchanged in both directions (not analysed)")
+}
+
+// ---- R6: pooled completion channels / write requests are recycled only after the write they belong to completed.
+
+// recvBlessed: blocks in which a receive from channel ch has certainly happened.
+func recvBlessed(c *Ctx, fn *ssa.Function, ch ssa.Value) map[*ssa.BasicBlock]bool {
+	che := c.Expr(ch)
+	out := map[*ssa.BasicBlock]bool{}
+	var recvs []ssa.Instruction
+	eachInstr(fn, func(i ssa.Instruction) {
+		if u, ok := i.(*ssa.UnOp); ok && u.Op.String() == "<-" && (u.X == ch || c.Expr(u.X) == che) {
+			recvs = append(recvs, i)
+		}
+	})
+	for _, b := range fn.Blocks {
+		for _, g := range guardsOf(b) {
+			if !g.Pol {
+				continue
+			}
+			bo, ok := g.Cond.(*ssa.BinOp)
+			if !ok || bo.Op.String() != "==" {
+				continue
+			}
+			ex, ok := bo.X.(*ssa.Extract)
+			if !ok || ex.Index != 0 {
+				continue
+			}
+			sel, ok := ex.Tuple.(*ssa.Select)
+			if !ok {
+				continue
+			}
+			k, ok := constInt(bo.Y)
+			if !ok || int(k) >= len(sel.States) {
+				continue
+			}
+			st := sel.States[k]
+			if (st.Chan == ch || c.Expr(st.Chan) == che) && st.Dir == 2 { // types.RecvOnly
+				out[b] = true
+			}
+		}
+		for _, r := range recvs {
+			if len(b.Instrs) > 0 && r.Block() != b && r.Block().Dominates(b) {
+				out[b] = true
+			}
+		}
+	}
+	return out
+}
+
+func c08r6(r *R) {
+	c := r.C
+	n := 0
+	for _, fn := range c.FuncsIn("pkg/http2") {
+		var puts []ssa.Instruction
+		eachInstr(fn, func(i ssa.Instruction) {
+			if cc := callOf(i); cc != nil && calleeName(cc) == "(*sync.Pool).Put" && len(cc.Args) == 2 && c.Expr(cc.Args[0]) == "http2.errChanPool" {
+				puts = append(puts, i)
+			}
+		})
+		for _, p := range puts {
+			n++
+			o := r.Ob("C08.R6", "errchan-recycled-after-result:"+funcName(fn)).AtI(p)
+			ch := unwrapIface(callOf(p).Args[1])
+			blessed := recvBlessed(c, fn, ch)
+			via := func(i ssa.Instruction) bool { return blessed[i.Block()] }
+			// where does ch come from
+			var from ssa.Instruction
+			if ta, ok := ch.(*ssa.TypeAssert); ok {
+				from = ta
+			}
+			if _, isDefer := p.(*ssa.Defer); isDefer {
+				path := c.escapePath(fn, p, via, isReturn)
+				o.Check(path == nil, "the completion channel is handed back to errChanPool by a deferred Put, i.e. also on returns taken before its result was received (client reset / connection closed while the frame write is pending): the late result then sits in a recycled channel and a later write on any connection returns early, before its DATA is on the wire, letting the copy buffer be overwritten: %v", path)
+				continue
+			}
+			if blessed[p.Block()] {
+				continue
+			}
+			path := c.escapePath(fn, from, via, func(i ssa.Instruction) bool { return i == p })
+			o.Check(path == nil, "the completion channel can be returned to errChanPool on a path on which its result was never received: %v", path)
+		}
+	}
+	r.Ob("C08.R6", "instances").Check(n >= 2, "expected >= 2 errChanPool.Put sites in the h2 server, found %d", n)
+	// the DATA write request goes back to its pool only when the frame write is done (result received)
+	wd := c.Method("pkg/http2", "serverConn", "writeDataFromHandler")
+	r.need(wd != nil, "writeDataFromHandler not found")
+	o := r.Ob("C08.R6", "writedata-recycled-after-write:"+funcName(wd)).At(wd.Pos())
+	var ch ssa.Value
+	eachInstr(wd, func(i ssa.Instruction) {
+		if ta, ok := i.(*ssa.TypeAssert); ok && typeName(ta.AssertedType) == "chan error" {
+			ch = ta
+		}
+	})
+	if o.Check(ch != nil, "completion channel not found") {
+		blessed := recvBlessed(c, wd, ch)
+		np := 0
+		eachInstr(wd, func(i ssa.Instruction) {
+			if cc := callOf(i); cc != nil && calleeName(cc) == "(*sync.Pool).Put" && c.Expr(cc.Args[0]) == "http2.writeDataPool" {
+				np++
+				o.AtI(i)
+				if _, isDefer := i.(*ssa.Defer); isDefer {
+					o.Fail("writeData is returned to its pool by a defer, also when the frame is still queued")
+					return
+				}
+				path := c.escapePath(wd, nil, func(j ssa.Instruction) bool { return blessed[j.Block()] }, func(j ssa.Instruction) bool { return j == i })
+				o.Check(path == nil, "the *writeData can go back to writeDataPool while its frame may still be queued (no completion result received): %v", path)
+			}
+		})
+		o.Check(np == 1, "expected one writeDataPool.Put in writeDataFromHandler, found %d", np)
+		// the function returns only after the result arrived, or with an error
+		eachInstr(wd, func(i ssa.Instruction) {
+			if ret, ok := i.(*ssa.Return); ok && !blessed[i.Block()] {
+				e := c.Expr(ret.Results[0])
+				okE := strings.HasPrefix(e, "http2.err") || strings.Contains(e, "writeFrameFromHandler(")
+				if !okE {
+					// join block after the select: every path to it must be blessed
+					path := c.escapePath(wd, nil, func(j ssa.Instruction) bool { return blessed[j.Block()] }, func(j ssa.Instruction) bool { return j == i })
+					o.AtI(i).Check(path == nil, "writeDataFromHandler can report success (%s) before the frame write completed: the caller would reuse its buffer: %v", e, path)
+				}
+			}
+		})
+	}
 }
